@@ -55,6 +55,23 @@ def run(ctx):
             r = vlib.run_tlc(ctx, "MCVoteSet", cfg, timeout=3000)
             vlib.require_model_ok(r, cfg)
             ctx.add_tlc(r, label)
+    # second layer: HeightVoteSet (round tracking, per-peer catch-up rounds, POLInfo)
+    hb = vlib.go_build("hvoteset", ctx)
+    r = vlib.run_tlc(ctx, "MCHeightVoteSet", "HeightVoteSet_qe.cfg", tags=("EDGE",), timeout=1200)
+    vlib.require_model_ok(r, "HeightVoteSet_qe")
+    ctx.add_tlc(r, "HeightVoteSet exhaustive+edges 3 validators rounds 0..2 len<=3")
+    s2 = vlib.handle_driver_results(ctx, vlib.run_driver(ctx, hb, ["-x", "3,2"], behaviours=vlib.dedup_prefix(r.traces)))
+    ctx.add("traces_validated_against_impl", int(s2.get("replays", 0)))
+    r = vlib.run_tlc(ctx, "MCHeightVoteSet", "HeightVoteSet_sim.cfg", mode="simulate", simulate=(300 if ctx.tier == "quick" else 5000), depth=14, tags=("TRACE",), timeout=900)
+    vlib.require_model_ok(r, "HeightVoteSet_sim")
+    ctx.add_tlc(r, "HeightVoteSet simulate 2 peers rounds 0..3 depth 12")
+    s3 = vlib.handle_driver_results(ctx, vlib.run_driver(ctx, hb, ["-x", "3,3"], behaviours=r.traces))
+    ctx.add("traces_validated_against_impl", int(s3.get("replays", 0)))
+    ctx.log("HeightVoteSet: %d edge behaviours + %d simulated replayed" % (s2.get("replays", 0), s3.get("replays", 0)))
+    if ctx.tier == "thorough":
+        r = vlib.run_tlc(ctx, "MCHeightVoteSet", "HeightVoteSet_t.cfg", timeout=3000)
+        vlib.require_model_ok(r, "HeightVoteSet_t")
+        ctx.add_tlc(r, "HeightVoteSet exhaustive 2 peers rounds 0..3 len<=4")
     ctx.cov["exhaustive"] = True
     ctx.assumptions += ["ed25519 signatures of the test keys verify/fail as the primitive specifies (C44/C47 territory)",
                         "MakeCommit clause read as CommitCarriesMajority (see spec header, DESIGN C35)"]
